@@ -314,7 +314,15 @@ type importJob struct {
 
 func importWorker(importWork chan importJob) {
 	for j := range importWork {
-		err := func() error {
+		err := func() (err error) {
+			// This goroutine serves requests outside the HTTP handler's
+			// recover: a panic while decoding a malformed payload must fail
+			// that request, not the whole server.
+			defer func() {
+				if r := recover(); r != nil {
+					err = fmt.Errorf("importing roaring data: %v", r)
+				}
+			}()
 			for viewName, viewData := range j.req.Views {
 				if viewName == "" {
 					viewName = viewStandard
@@ -323,6 +331,9 @@ func importWorker(importWork chan importJob) {
 				}
 				if len(viewData) == 0 {
 					return fmt.Errorf("no data to import for view: %s", viewName)
+				}
+				if len(viewData) < 2 {
+					return fmt.Errorf("import data too short for view: %s", viewName)
 				}
 				fileMagic := uint32(binary.LittleEndian.Uint16(viewData[0:2]))
 				if fileMagic == roaring.MagicNumber { // if pilosa roaring format
